@@ -212,9 +212,24 @@ Theorem C03_roundtrip_equiv_bb : ∀ C b π m rsv,
     (∀ v, consistent (c_g C) v → (∃ x : bool, ∀ n, n ∈ of_type (c_g C) (is_ty CX) → v n = x) → ∃ w, consistent (c_g C') w ∧ agrees S w v).
 Proof.
   intros C b π m rsv (Hl & Hg & Hn & Hd & Hcl) (B1 & B2 & B3 & B4 & B5) Hno Hw Hids.
-  exact (roundtrip_equiv_bb C b π m rsv (lint_clean_rteb C rt_flags Hl Hg Hn Hd Hcl B1 B2 B3 B4 B5 Hno) Hw Hids).
+  exact (roundtrip_equiv_bb_ends C b π m rsv (lint_clean_rteb C rt_flags Hl Hg Hn Hd Hcl B1 B2 B3 B4 B5 Hno) Hw Hids).
 Qed.
 Print Assumptions C03_roundtrip_equiv_bb.
+(* the same with the equivalence at EVERY node of the original, pins of both kinds included (an output pin carries the value of the net it
+   drives; unconnected pins are free nodes of both circuits that nothing reads) *)
+Theorem C03_roundtrip_equiv_bb_nodes : ∀ C b π m rsv,
+  wf_rt C → wf_bb C → no_pin_outputs (c_g C) → write C b π = Ok m → list_to_set (module_ids m) ⊆ rsv →
+  ∃ C', read rsv (bbdefs_of C) m = Ok C' ∧
+    c_name C' = c_name C ∧ inputs (c_g C') = inputs (c_g C) ∧ outputs (c_g C') = outputs (c_g C) ∧ c_bbs C' = c_bbs C ∧
+    (∀ p, p ∈ of_type (c_g C) (is_ty BbIn) → ty (c_g C') p = Some BbIn ∧ fanin (c_g C') p = fanin (c_g C) p) ∧
+    (∀ p, p ∈ of_type (c_g C) (is_ty BbOut) → fanout (c_g C') p = fanout (c_g C) p) ∧
+    (∀ v', consistent (c_g C') v' → ∃ v, consistent (c_g C) v ∧ (∃ x : bool, ∀ n, n ∈ of_type (c_g C) (is_ty CX) → v n = x) ∧ agrees (dom (c_g C)) v v') ∧
+    (∀ v, consistent (c_g C) v → (∃ x : bool, ∀ n, n ∈ of_type (c_g C) (is_ty CX) → v n = x) → ∃ w, consistent (c_g C') w ∧ agrees (dom (c_g C)) w v).
+Proof.
+  intros C b π m rsv (Hl & Hg & Hn & Hd & Hcl) (B1 & B2 & B3 & B4 & B5) Hno Hw Hids.
+  exact (roundtrip_equiv_bb C b π m rsv (lint_clean_rteb C rt_flags Hl Hg Hn Hd Hcl B1 B2 B3 B4 B5 Hno) Hw Hids).
+Qed.
+Print Assumptions C03_roundtrip_equiv_bb_nodes.
 
 (* roundtrip_equiv (its conclusion word for word) for circuits with blackbox instances in the primitive style without constants:
    corollary of C03_roundtrip_identical_bb - the read-back circuit is the original *)
